@@ -1527,3 +1527,130 @@ func (c *ctx) replay(lines []string) error {
 	}
 	return nil
 }
+
+// ---- probe facts -------------------------------------------------------------------
+
+func leanStr(s string) string { return fmt.Sprintf("%q", s) }
+
+func leanKind(k string) string {
+	return map[string]string{"t": ".top", "i": ".iq", "m": ".msg", "p": ".pres"}[k]
+}
+
+func leanBool(b bool) string {
+	if b {
+		return "true"
+	}
+	return "false"
+}
+
+// Facts runs the real registration options and exported lookups over complete finite domains
+// and emits the resulting tables as Lean definitions (Generated/C14.lean):
+//
+//	typeTable    every kind x every ordered pair (T1, T2) of the type universe: is a pattern
+//	             registered with type T1 (bare wildcard, plain option; exact name, Func option)
+//	             found by the lookup of type T2, and is registering the same name for T2 after T1
+//	             accepted
+//	cascadeTable every kind x every subset of the four shapes of one name: which shape the
+//	             exported lookup returns
+//
+// Nothing here depends on the source text of the library: any refactoring that keeps the
+// behaviour keeps the tables.
+func Facts(repo string) (string, error) {
+	var sb strings.Builder
+	sb.WriteString("-- GENERATED by `harness facts C14`: the real mux options and lookups run on complete finite domains; do not edit.\n")
+	sb.WriteString("import XmppModel.Model.Mux\n")
+	sb.WriteString("namespace XmppModel.Generated.C14\nopen XmppModel.Mux\n\n")
+	q := xml.Name{Space: "urn:a", Local: "x"}
+	found := func(ps []Pat, fn bool, kind, typ string) (res string) {
+		res = "none"
+		rec := &recorder{}
+		p := common.Recover(func() {
+			m := mux.New(c08.NSClient)
+			for i, pt := range ps {
+				if fn {
+					funcOption(pt, rec, i)(m)
+				} else {
+					optionOf(marker{pat: pt, rec: rec, gen: i})(m)
+				}
+			}
+			var h interface{}
+			switch kind {
+			case "t":
+				h, _ = m.Handler(q)
+			case "i":
+				h, _ = m.IQHandler(stanza.IQType(typ), q)
+			case "m":
+				h, _ = m.MessageHandler(stanza.MessageType(typ), q)
+			case "p":
+				h, _ = m.PresenceHandler(stanza.PresenceType(typ), q)
+			}
+			if mk, ok := identify(h, rec); ok {
+				res = fmt.Sprintf("some ⟨%s, %s, ⟨%s, %s⟩⟩", leanKind(mk.pat.Kind), leanStr(mk.pat.Typ), leanStr(mk.pat.Name.Space), leanStr(mk.pat.Name.Local))
+			}
+		})
+		if p != "" {
+			res = "PANIC"
+		}
+		return res
+	}
+	ok := true
+	var rows []string
+	for _, kind := range []string{"i", "m", "p"} {
+		for _, t1 := range typesOf[kind] {
+			for _, t2 := range typesOf[kind] {
+				a := found([]Pat{{Kind: kind, Typ: t1, Name: xml.Name{}}}, false, kind, t2)
+				b := found([]Pat{{Kind: kind, Typ: t1, Name: q}}, true, kind, t2)
+				if a == "PANIC" || b == "PANIC" {
+					ok = false
+				}
+				second := common.Recover(func() {
+					rec := &recorder{}
+					m := mux.New(c08.NSClient)
+					optionOf(marker{pat: Pat{Kind: kind, Typ: t1, Name: q}, rec: rec})(m)
+					funcOption(Pat{Kind: kind, Typ: t2, Name: q}, rec, 1)(m)
+				}) == ""
+				rows = append(rows, fmt.Sprintf("  ⟨%s, %s, %s, %s, %s, %s⟩", leanKind(kind), leanStr(t1), leanStr(t2), leanBool(a != "none"), leanBool(b != "none"), leanBool(second)))
+			}
+		}
+	}
+	sb.WriteString("/-- (kind, T1, T2, wildcard of T1 found by the T2 lookup, exact name of T1 (Func option) found by the T2 lookup,\n    the same name accepted for T2 after T1) -/\n")
+	if ok {
+		sb.WriteString("def typeTable : Option (List TypeRow) := some [\n" + strings.Join(rows, ",\n") + "]\n\n")
+	} else {
+		sb.WriteString("def typeTable : Option (List TypeRow) := none\n\n")
+	}
+	shapes := []xml.Name{q, {Local: "x"}, {Space: "urn:a"}, {}}
+	rows = nil
+	ok = true
+	for _, kind := range []string{"t", "i", "m", "p"} {
+		typ := ""
+		if kind != "t" {
+			typ = typesOf[kind][1]
+		}
+		nsh := 4
+		if kind == "t" {
+			nsh = 3 // Handle(xml.Name{}) is legal but the top-level cascade has no bare-wildcard step; kept out
+		}
+		for mask := 0; mask < 1<<nsh; mask++ {
+			var ps []Pat
+			for i := nsh - 1; i >= 0; i-- {
+				if mask&(1<<i) != 0 {
+					ps = append(ps, Pat{Kind: kind, Typ: typ, Name: shapes[i]})
+				}
+			}
+			a := found(ps, mask%2 == 1, kind, typ)
+			if a == "PANIC" {
+				ok = false
+			}
+			rows = append(rows, fmt.Sprintf("  ⟨%s, %s, %d, %s⟩", leanKind(kind), leanStr(typ), mask, a))
+		}
+	}
+	sb.WriteString("/-- (kind, type, mask of the registered shapes of {urn:a}x: 1 exact, 2 local name only, 4 namespace only, 8 wildcard,\n    the pattern whose handler the exported lookup returns) -/\n")
+	if ok {
+		sb.WriteString("def cascadeTable : Option (List CascadeRow) := some [\n" + strings.Join(rows, ",\n") + "]\n\n")
+	} else {
+		sb.WriteString("def cascadeTable : Option (List CascadeRow) := none\n\n")
+	}
+	sb.WriteString("end XmppModel.Generated.C14\n")
+	return sb.String(), nil
+}
